@@ -97,6 +97,19 @@ pub struct Sched {
 thread_local! {
     static ME: RefCell<Option<(Arc<Sched>, usize)>> = const { RefCell::new(None) };
     static RECORDER: RefCell<Option<Vec<usize>>> = const { RefCell::new(None) };
+    /// set while a workload runs sequentially on this thread without a scheduler: a blocking
+    /// lock intent that cannot be granted would wait for this very thread for ever
+    static SOLO: std::cell::Cell<bool> = const { std::cell::Cell::new(false) };
+}
+
+pub const SELF_DEADLOCK: &str = "SELF-DEADLOCK";
+
+/// Runs `f` with the solo guard set (no-op in the rc build, where the borrow flag panics instead)
+pub fn solo<T>(f: impl FnOnce() -> T) -> T {
+    SOLO.with(|s| s.set(true));
+    let r = f();
+    SOLO.with(|s| s.set(false));
+    r
 }
 
 /// Installs the process-global hook once
@@ -124,6 +137,16 @@ pub fn install_global_hook() {
                 let me = ME.with(|m| m.borrow().clone());
                 if let Some((sched, tid)) = me {
                     sched.at_intent(tid, addr, intent, can_read, can_write);
+                } else if SOLO.with(|s| s.get()) {
+                    let granted = match intent {
+                        LockIntent::Read => can_read(),
+                        LockIntent::Write => can_write(),
+                        LockIntent::TryRead | LockIntent::TryWrite => true,
+                    };
+                    if !granted {
+                        SOLO.with(|s| s.set(false));
+                        panic!("{SELF_DEADLOCK}: the only running thread requests {intent:?} on a lock it holds itself in a conflicting mode");
+                    }
                 }
             },
         )));
